@@ -204,6 +204,8 @@ def _worker(args):
     try:
         mod = sys.modules.get(modname) or __import__(modname, fromlist=["x"])
         sh = mod.run_shard(desc)
+        for v in sh.violations:
+            v.setdefault("shard", desc)
         return ("ok", desc, sh.pack())
     except BaseException as e:  # noqa: BLE001
         text = traceback.format_exc()
@@ -336,18 +338,34 @@ def run_check(mod, tier, seed):
             else:
                 r1 = mod.check_case(v["case"])
                 r2 = mod.check_case(v["case"])
-        except BaseException:  # noqa: BLE001
-            machinery_error("replay crashed:\n" + traceback.format_exc())
+        except BaseException as e:  # noqa: BLE001
+            if _raised_inside_package(e):
+                r1 = r2 = {"observed": {"replay_raised_inside_package": type(e).__name__}}
+            else:
+                machinery_error("replay crashed:\n" + traceback.format_exc())
         o1 = canon(r1["observed"]) if r1 else None
         o2 = canon(r2["observed"]) if r2 else None
-        if o1 != o2:
+        if (r1 is None) != (r2 is None):
             machinery_error(
                 f"unowned nondeterminism replaying {canon(v['case'])}: {o1} vs {o2}"
             )
         if r1 is None:
-            machinery_error(
-                f"violation did not reproduce on replay: {canon(v['case'])}"
-            )
+            # The case failed during the exploration but passes when run on its own: its outcome
+            # depends on what the package did before, i.e. on state hidden in the package (on the
+            # unchanged tree no case fails at all, so this branch is never reached there).  Re-run
+            # the shard that produced it from its start; the replay file then names the shard.
+            again = None
+            try:
+                sh2 = mod.run_shard(v["shard"]) if v.get("shard") is not None else None
+                if sh2 is not None:
+                    again = [x for x in sh2.violations]
+            except BaseException:  # noqa: BLE001
+                again = None
+            v["kind"] = v["kind"] + "(history-dependent)"
+            v["observed"] = {"during_exploration": v["observed"],
+                             "in_isolation": "passes",
+                             "shard_rerun_violations": None if again is None else len(again)}
+            v["case"] = {"history_of_shard": v.get("shard"), "failing_case": v["case"]}
         path = write_replay(prop, v)
         print(f"VIOLATION property={prop} replay={path}", flush=True)
         print(
@@ -457,7 +475,10 @@ def write_evidence(prop, ev):
 
 def replay(mod, path):
     rec = json.load(open(path, encoding="utf8"))
-    if rec.get("kind") == "crash-in-package" and "shard" in rec["case"]:
+    if "history_of_shard" in rec["case"]:
+        sh = mod.run_shard(rec["case"]["history_of_shard"])
+        v = sh.violations[0] if sh.violations else None
+    elif rec.get("kind") == "crash-in-package" and "shard" in rec["case"]:
         v = shard_crash_case(mod, rec["case"])
     else:
         v = mod.check_case(rec["case"])
